@@ -834,3 +834,31 @@ func init() {
 	}
 	intrinsics["(*internal/godebug.Setting).Value"] = func(fr *frame, args []value) value { return mkStr("") }
 }
+
+func init() {
+	// vSyncEventsOf(obj): the lock / condition events recorded on one object
+	apiIntrinsics["vSyncEventsOf"] = func(fr *frame, args []value) value {
+		var p *value
+		switch a := args[0].(type) {
+		case iface:
+			if q, ok := a.v.(*value); ok {
+				p = q
+			} else if inner, ok := a.v.(iface); ok {
+				p, _ = inner.v.(*value)
+			}
+		case *value:
+			p = a
+		}
+		var sb strings.Builder
+		for _, e := range fr.r.syncLog {
+			if e.ptr == p {
+				sb.WriteString(e.ev + ";")
+			}
+		}
+		return mkStr(sb.String())
+	}
+	apiIntrinsics["vSyncReset"] = func(fr *frame, args []value) value {
+		fr.r.syncLog = nil
+		return nil
+	}
+}
